@@ -49,6 +49,7 @@ type Fx struct {
 	loadKey      string
 	noGuard      bool
 	inAtomic     bool
+	loopHeads    map[string]*State
 }
 
 type unsupported struct{ msg string }
